@@ -4,7 +4,16 @@ qr_vmap / qr_vmap_uhf and the propagators' orthonormalisation wrappers are trace
 contract (ANY (Q,R) with R upper triangular, QR = A; A2): the harness builds A = Q R from a symbolic Q (no orthonormality
 needed) and a symbolic upper-triangular R and hands exactly that pair to the contract.  Obligations (all on the real code):
 overlap(A) = overlap(Q_out) * norm factor (per walker, spin blocks not mixed), E_L(A) = E_L(Q_out), force_bias(A) =
-force_bias(Q_out).  get_init_walkers is not applicable (eager NumPy/LAPACK eigenvector gauge; DESIGN 6)."""
+force_bias(Q_out).  get_init_walkers is not applicable (eager NumPy/LAPACK eigenvector gauge; DESIGN 6).
+
+Two further obligations on code the property's clauses run through (same harness classes as C05-L3 / C01-rdm1, reported
+under C13 because the clause they decide is C13's):
+ * "free-book": inside propagate_free the accumulated norm is multiplied - not replaced - by the factor of each
+   re-orthonormalisation: from an ARBITRARY symbolic pre-state norm (inductive over any number of steps) norms' = norms *
+   prod diag R_up * prod diag R_dn, overlaps' = overlap(Q) * norms', walkers' = Q.
+ * "init-rdm1": the density matrix get_init_walkers takes its natural orbitals from (wave_function.get_rdm1 ->
+   _calc_rdm1 when wave_data carries no "rdm1") is the trial's own <psi|a+_ps a_qs|psi>/<psi|psi> for single-determinant
+   trials, so its occupied natural-orbital space is the trial's occupied space (the eigen-decomposition itself is N/A)."""
 import numpy as np
 
 from vf import engine, qdom
@@ -133,12 +142,40 @@ def cases(tier):
         out.append({"kind": kind, "norb": norb, "nelec": list(nelec), "restricted": restricted, "opt": opt, "entry": "orthonormalize_walkers"})
         if not restricted:
             out.append({"kind": kind, "norb": norb, "nelec": list(nelec), "restricted": restricted, "opt": opt, "entry": "_orthogonalize_walkers"})
+    out.append({"type": "free-book", "norb": 3, "nelec": [2, 1], "n_walkers": 2})
+    O = {"orth": 1}
+    for kind, norb, nelec in [("rhf", 3, (1, 1)), ("rhf", 3, (2, 2)), ("uhf", 3, (2, 1)), ("uhf", 3, (2, 2)), ("uhf", 3, (1, 0))]:
+        out.append({"type": "init-rdm1", "kind": kind, "norb": norb, "nelec": list(nelec), "opt": O})
+    if tier == "thorough":
+        out.append({"type": "free-book", "kind": "noci", "norb": 3, "nelec": [1, 1], "n_walkers": 2, "opt": {"ndets": 2}})
+        out.append({"type": "init-rdm1", "kind": "rhf", "norb": 4, "nelec": [2, 2], "opt": O})
     return out
 
 
+def _mk(args):
+    t = args.get("type", "qr")
+    if t == "free-book":
+        from .c05 import Bookkeeping
+
+        class FreeBook(Bookkeeping):
+            check_id = "C13"
+        c = FreeBook(args)
+        c.name = "free-" + c.name
+        return c
+    if t == "init-rdm1":
+        from .c01 import RdmCase
+
+        class InitRdm(RdmCase):
+            check_id = "C13"
+        c = InitRdm(args)
+        c.name = "init-" + c.name
+        return c
+    return QRCase(args)
+
+
 def run(args, seed, known):
-    return engine.run_case(QRCase(args), seed=seed, known=known)
+    return engine.run_case(_mk(args), seed=seed, known=known)
 
 
 def replay(data):
-    return engine.replay_file(QRCase(data["case_args"]), data)
+    return engine.replay_file(_mk(data["case_args"]), data)
